@@ -254,6 +254,9 @@ def corrupt_stmt(r, words):
 
 # hand-picked texts for the model-vs-code tie: clause order, optional keywords, the defect switch, depth, unmodelled branches
 FIXED_TEXTS = [
+    # keywords whose canonical spelling the parser stores (repo a8df5c2 7e001b2), written in lower / mixed case
+    "SELECT a FROM t WHERE a = 1 and b = 2 or c like 'x' And d Not iLike 'y'", "select a from t union all select b from u Intersect select c from v eXcept select d from w",
+    "SELECT a FROM t WHERE a and ( b Or c ) GROUP BY a HAVING a or b ORDER BY a and b",
     "SELECT a b FROM t", "SELECT t . a b FROM t", "SELECT f ( a ) b FROM t", "SELECT a AS b , c d FROM t", "SELECT 1", "SELECT 1 ;", "SELECT",
     "SELECT a FROM", "SELECT a FROM t WHERE", "SELECT a FROM t WHERE GROUP BY a", "SELECT a , FROM t", "SELECT a FROM t ,", "SELECT * , a FROM t u , v AS w",
     "SELECT a FROM s . t . u x", "SELECT a FROM t JOIN u", "SELECT a FROM t CROSS JOIN u ON a = b", "SELECT a FROM t NATURAL JOIN u USING ( a )",
